@@ -35,6 +35,23 @@ def garbage_words(maxlen=2):
     return out
 
 
+LEGACY_DECLARED = ('lst', 'ltx', 'lmx')     # macros of context A declared through args_parser=MacroStandardArgsParser(...)
+
+
+def _diff_cause(strict_nodes, ctx):
+    """Cause tag (identifies a defect, not an input): the strict parse contains a call of a macro declared through the
+    pylatexenc-2 MacroStandardArgsParser one of whose brace arguments is missing because the enclosing group closes - the
+    legacy parser then records an empty dummy argument (documented pylatexenc-2 behaviour, strict_braces=False)."""
+    if ctx != 'A':
+        return None
+    for n in canon.iter_nodes(strict_nodes):
+        if canon.kind_of(n) == 'macro' and n.macroname in LEGACY_DECLARED and n.nodeargd is not None:
+            for a in (n.nodeargd.argnlist or []):
+                if a is not None and canon.kind_of(a) == 'chars' and a.chars == '' and a.pos == a.pos_end:
+                    return 'legacy-args-parser-dummy-for-missing-brace-argument'
+    return None
+
+
 def plan(tier):
     spec = SPECS[tier]
     shards = [('be', sh) for sh in sweeps.shards(spec)]
@@ -84,7 +101,7 @@ def check_word(s, ctx, acc, sub='be'):
         if any(k != 'chars' for k in (canon.kind_of(n) for n in canon.iter_nodes(res2[1]))):
             acc.count('nontrivial')
         if tc != sc:
-            acc.violation(ID, sub, case, dict(kind='tolerant-differs-from-strict'),
+            acc.violation(ID, sub, case, dict(kind='tolerant-differs-from-strict', cause=_diff_cause(res2[1], ctx)),
                           observed=repr(tc)[:600], expected=repr(sc)[:600])
     else:
         acc.count('strict_rejected')
